@@ -42,6 +42,18 @@ def r1c_mask_unscaled(ctx):
     fitclauses.clause_relative_cp(ctx)
 
 
+
+def r4_k_change_refits(ctx):
+    """a changed correction factor is a changed setting: the stored results
+    are dropped and the next request fits again (no rescaling of an old
+    result in place, whose exponent would have to depend on the model):
+    the invalidation rule of FitProperties.__setitem__ (shared with C01-R6)"""
+    from .. import fitrules
+    fitrules.setitem_invalidation(
+        ctx, why=" (results obtained with another correction factor stay "
+        "visible)")
+
+
 RULES = [
     ("C11-R1", "scale before / convert back after, once each; nothing else "
      "uses the factor", fitclauses.clause_gcf_pairing),
@@ -52,4 +64,6 @@ RULES = [
     ("C11-R2", "scaling works on a private copy of the stored guess",
      r2_private_copy),
     ("C11-R3", "homogeneity degree of the power-law models", r3_homogeneity),
+    ("C11-R4", "a changed correction factor drops the stored results "
+     "(no in-place rescaling of an old result)", r4_k_change_refits),
 ]
